@@ -9,7 +9,10 @@ struct Gen {
     int boost = 0;  // 1 in the thorough tier: larger inputs (more allocations, deeper compactions)
     explicit Gen(Rng &rng) : r(rng) {}
     LatLng nearIcosaEdge();          // a point within 1e-9 .. 1e-3 rad of an icosahedron edge, mostly near its midpoint
-    Op primerFor(const Op &op);      // same function, "nearby" arguments: what a thread did just before
+    Op primerFor(const Op &op);
+    // a sequence of n calls of ONE cheap function whose arguments follow a walk (tiny steps across an icosahedron
+    // edge, neighbour steps around a pentagon, ...): the call history of a thread that works through nearby data
+    std::vector<Op> walk(int n);      // same function, "nearby" arguments: what a thread did just before
 
     // --- cells
     H3Index randCell(int res);
